@@ -284,7 +284,7 @@ func trunc(s string) string {
 
 var perType = map[string]int{}
 
-var jsonCheck = &core.Check{Name: "c20/roundtrip", Quick: 8000, Thorough: 600000, Fn: func(c *core.Ctx) error {
+var jsonCheck = &core.Check{Name: "c20/roundtrip", Quick: 8000, Thorough: 600000, Hang: caseHang, Fn: func(c *core.Ctx) error {
 	t := types[c.Choose("type", len(types))]
 	c.Note("type", typeName(t))
 	var v reflect.Value
@@ -301,7 +301,7 @@ var jsonCheck = &core.Check{Name: "c20/roundtrip", Quick: 8000, Thorough: 600000
 }}
 
 // focused on message addresses, the one hand-written text format with several forms
-var addrCheck = &core.Check{Name: "c20/msgaddress", Quick: 6000, Thorough: 400000, Fn: func(c *core.Ctx) error {
+var addrCheck = &core.Check{Name: "c20/msgaddress", Quick: 6000, Thorough: 400000, Hang: caseHang, Fn: func(c *core.Ctx) error {
 	g := &tlbgen.G{C: c}
 	v, err := g.Value(msgAddrT, 3)
 	if err != nil {
@@ -355,5 +355,5 @@ func TestEnum(t *testing.T) {
 }
 
 func TestReplay(t *testing.T) {
-	core.Replay(t, jsonCheck, addrCheck, envelopeCheck, concurrentCheck, cellHistory)
+	core.Replay(t, jsonCheck, addrCheck, envelopeCheck, concurrentCheck, cellHistory, bitStringCapacity)
 }
